@@ -92,4 +92,126 @@ theorem cmp_exact (d e : Dec) (hd : d.Norm) (he : e.Norm) :
   · have := hposA trivial; omega
   · omega
 
+/-! ## accepted grammar and value of short numerals (the u64 path of `Parse`) -/
+
+/-- every byte is an ASCII digit -/
+def AllDigits (ds : Str) : Prop := ∀ c ∈ ds, isDigit c = true
+
+instance (ds : Str) : Decidable (AllDigits ds) := by unfold AllDigits; infer_instance
+
+/-- the natural number a digit string denotes, continuing from `acc` -/
+def natValFrom (acc : Nat) (ds : Str) : Nat := ds.foldl (fun a c => a * 10 + digitVal c) acc
+/-- the natural number a digit string denotes -/
+def natVal (ds : Str) : Nat := natValFrom 0 ds
+
+theorem isDigit_ne_dot {c : UInt8} (h : isDigit c = true) : c ≠ cDot ∧ c ≠ cMinus ∧ c ≠ cPlus := by
+  unfold isDigit at h
+  simp only [Bool.and_eq_true, decide_eq_true_eq] at h
+  refine ⟨?_, ?_, ?_⟩ <;> (intro hc; subst hc; revert h; decide)
+
+theorem parseSmall_digits (ds rest : Str) (coef prec : Nat) (h : AllDigits ds) :
+    parseSmall (ds ++ rest) coef prec = parseSmall rest (natValFrom coef ds) prec := by
+  induction ds generalizing coef with
+  | nil => rfl
+  | cons c t ih =>
+    have hc : isDigit c = true := h c (by simp)
+    have ht : AllDigits t := fun x hx => h x (by simp [hx])
+    simp only [List.cons_append, parseSmall]
+    rw [if_neg (isDigit_ne_dot hc).1]
+    simp only [hc, Bool.not_true, Bool.false_eq_true, if_false]
+    rw [ih _ ht]; rfl
+
+/-- integers of at most 19 digits -/
+theorem parseSmall_int (ds : Str) (h : AllDigits ds) :
+    parseSmall ds 0 0 = if natVal ds = 0 then .ok 0 0 else .ok (natVal ds) 0 := by
+  have := parseSmall_digits ds [] 0 0 h
+  rw [List.append_nil] at this
+  rw [this]; rfl
+
+/-- decimals: digits, a dot, 1–19 digits -/
+theorem parseSmall_frac (ds fs : Str) (hd : AllDigits ds) (hf : AllDigits fs)
+    (h1 : 1 ≤ fs.length) (h2 : fs.length ≤ 19) :
+    parseSmall (ds ++ cDot :: fs) 0 0 =
+      if natVal (ds ++ fs) = 0 then .ok 0 0 else .ok (natVal (ds ++ fs)) fs.length := by
+  rw [parseSmall_digits ds _ 0 0 hd]
+  simp only [parseSmall]
+  rw [if_pos trivial, if_neg (by simp), if_neg (by omega), if_neg (by unfold defaultPrec; omega)]
+  have := parseSmall_digits fs [] (natValFrom 0 ds) fs.length hf
+  rw [List.append_nil] at this
+  rw [this]
+  unfold natVal natValFrom
+  rw [List.foldl_append]
+  rfl
+
+
+theorem parse_via_small (sign : Str) (neg : Bool) (d0 : UInt8) (bt : Str) (c p : Nat)
+    (hsign : (sign = [] ∧ neg = false) ∨ (sign = [cPlus] ∧ neg = false) ∨ (sign = [cMinus] ∧ neg = true))
+    (hd0 : isDigit d0 = true) (hl : (d0 :: bt).length ≤ 19)
+    (hs : parseSmall (d0 :: bt) 0 0 = .ok c p) :
+    parse (sign ++ d0 :: bt) = some (mkDec neg c p) := by
+  have ⟨n1, n2, n3⟩ := isDigit_ne_dot hd0
+  have hl' : bt.length + 1 ≤ 19 := by simpa using hl
+  rcases hsign with ⟨h1, h2⟩ | ⟨h1, h2⟩ | ⟨h1, h2⟩ <;> subst h1 <;> subst h2
+  · have hu : parseU128 (d0 :: bt) = (false, parseSmall (d0 :: bt) 0 0) := by
+      simp [parseU128, n1, n2, n3, maxDigitU64, hl']
+    unfold parse
+    simp only [List.nil_append, hu, hs]
+    simp [maxStrLen]; omega
+  · have hu : parseU128 (cPlus :: d0 :: bt) = (false, parseSmall (d0 :: bt) 0 0) := by
+      simp (config := {decide := true}) [parseU128, n1, maxDigitU64, hl']
+    unfold parse
+    simp only [List.cons_append, List.nil_append, hu, hs]
+    simp [maxStrLen]; omega
+  · have hu : parseU128 (cMinus :: d0 :: bt) = (true, parseSmall (d0 :: bt) 0 0) := by
+      simp (config := {decide := true}) [parseU128, n1, maxDigitU64, hl']
+    unfold parse
+    simp only [List.cons_append, List.nil_append, hu, hs]
+    simp [maxStrLen]; omega
+
+/-- the three accepted sign prefixes and the sign they denote -/
+def SignOf (sign : Str) (neg : Bool) : Prop :=
+  (sign = [] ∧ neg = false) ∨ (sign = [cPlus] ∧ neg = false) ∨ (sign = [cMinus] ∧ neg = true)
+
+/-- **accepted integers (u64 path)**: an optional sign and 1–19 ASCII digits is accepted and
+denotes that integer. -/
+theorem parse_short_int (sign : Str) (neg : Bool) (ds : Str) (hsign : SignOf sign neg)
+    (hd : AllDigits ds) (hne : ds ≠ []) (hl : ds.length ≤ 19) :
+    parse (sign ++ ds) = some (mkDec neg (natVal ds) 0) := by
+  obtain ⟨d0, bt, rfl⟩ : ∃ d0 bt, ds = d0 :: bt := by
+    cases ds with
+    | nil => exact absurd rfl hne
+    | cons a b => exact ⟨a, b, rfl⟩
+  have hs := parseSmall_int (d0 :: bt) hd
+  by_cases hz : natVal (d0 :: bt) = 0
+  · rw [if_pos hz] at hs
+    rw [parse_via_small sign neg d0 bt 0 0 hsign (hd d0 (by simp)) hl hs]
+    simp [mkDec, hz]
+  · rw [if_neg hz] at hs
+    exact parse_via_small sign neg d0 bt _ _ hsign (hd d0 (by simp)) hl hs
+
+/-- **accepted decimals (u64 path)**: optional sign, 1+ digits, a dot, 1+ digits, at most 19 bytes
+after the sign, is accepted and denotes `±(ds fs)/10^|fs|`. -/
+theorem parse_short_frac (sign : Str) (neg : Bool) (ds fs : Str) (hsign : SignOf sign neg)
+    (hd : AllDigits ds) (hf : AllDigits fs) (hne : ds ≠ []) (hfne : fs ≠ [])
+    (hl : (ds ++ cDot :: fs).length ≤ 19) :
+    parse (sign ++ (ds ++ cDot :: fs)) = some (mkDec neg (natVal (ds ++ fs)) fs.length) := by
+  obtain ⟨d0, bt, rfl⟩ : ∃ d0 bt, ds = d0 :: bt := by
+    cases ds with
+    | nil => exact absurd rfl hne
+    | cons a b => exact ⟨a, b, rfl⟩
+  have hf1 : 1 ≤ fs.length := by cases fs <;> simp_all
+  have hf2 : fs.length ≤ 19 := by simp at hl; omega
+  have hs := parseSmall_frac (d0 :: bt) fs hd hf hf1 hf2
+  by_cases hz : natVal (d0 :: bt ++ fs) = 0
+  · rw [if_pos hz] at hs
+    rw [List.cons_append, parse_via_small sign neg d0 (bt ++ cDot :: fs) 0 0 hsign (hd d0 (by simp)) hl hs]
+    have hz' : natVal (d0 :: (bt ++ fs)) = 0 := hz
+    simp [mkDec, hz']
+  · rw [if_neg hz] at hs
+    exact parse_via_small sign neg d0 (bt ++ cDot :: fs) _ _ hsign (hd d0 (by simp)) hl hs
+
+example : parse [45, 49, 46, 53, 48] = some ⟨true, 150, 2⟩ :=
+  parse_short_frac [cMinus] true [49] [53, 48] (Or.inr (Or.inr ⟨rfl, rfl⟩)) (by decide) (by decide)
+    (by decide) (by decide) (by decide)
+
 end CentrifugeVerif.Decimal
